@@ -71,7 +71,7 @@ _p('C28', secs=(25, 420), runs=(200000, 20000000), mix=(3, 6),
 _p('C31', secs=(20, 300), runs=(400000, 40000000), mix=(3, 6),
     title='Timer events fire no earlier than scheduled and in due order',
     technique='deterministic simulation: real Timer<T> thread on the simulated clock (discrete-event time), seeded schedules of schedule()/clear()/waits, optional second scheduling thread; history oracle over callback invocation records',
-    rule='one evaluation = one seeded timeline: 1-12 (thorough 1-20) ops of schedule(delay 1-200 ms, repeat flag, callback result script, callback sleeping 0-8 ms), wait, clear; timer granularity 1/2/5/10 ms; non-trivial = at least 2 events scheduled and 2 callbacks run; distinct = distinct event-log hash',
+    rule='one evaluation = one seeded timeline: 1-12 (thorough 1-20) ops of schedule(delay 1-200 ms, repeat flag, callback result script, callback sleeping 0-8 ms), wait (whole milliseconds, or a fraction of one so that events fall into the same millisecond at different instants), clear; timer granularity 1/2/5/10 ms; non-trivial = at least 2 events scheduled and 2 callbacks run; distinct = distinct event-log hash',
     real=['FIX8::Timer<T>::operator()/schedule/clear, TimerEvent ordering, priority queue', 'hypersleep, Tickval clock reads (simulated clock behind link-time wrappers)', 'f8_spin_lock (pthread spin lock, intercepted)'],
     stub=['callbacks: recording probe methods with scripted results'],
     level_text='seeded exploration of timelines and interleavings; oracle: never before due time, due-time order among queued+due events, repeat interval and stop-on-false, nothing pending runs after clear() returns, bounded liveness after the last due time',
@@ -80,7 +80,7 @@ _p('C31', secs=(20, 300), runs=(400000, 40000000), mix=(3, 6),
 _p('C24', secs=(20, 300), runs=(100000, 10000000),
     title='Session activation follows the configured schedule',
     technique='deterministic simulation of time: the real Schedule::test() reads the simulated clock and is walked along a virtual timeline of 3-5 weeks in seeded steps of 1-60 s (landing on the window boundaries), each result fed back as prev and compared with an interval reference model; decode_dow enumerated directly (pure clause)',
-    rule='one evaluation = one seeded schedule (start/end time of day at least 2 min apart, utc offset -720..+840 min, daily or weekly with any start/end weekday pair incl. equal and wrap-around) walked over 3 weeks (3-5 thorough) from an inactive instant, about 36 000 test() calls per week; non-trivial = the schedule changed state at least twice; distinct = distinct event-log hash. In 2% of runs all 279 000 strings of length <= 3 over [a-zA-Z0-9 -] are passed to decode_dow (pure clause, enumerated directly, not simulation)',
+    rule='one evaluation = one seeded schedule (start/end time of day at least 2 min apart, utc offset -720..+840 min, daily or weekly with any start/end weekday pair incl. equal and wrap-around) built directly or (half of the runs) by the real Configuration::create_session_schedule() from XML text with weekdays as names or digits and end_day left out when equal to start_day, walked over 3 weeks (3-5 thorough) from an inactive instant, about 36 000 test() calls per week; non-trivial = the schedule changed state at least twice; distinct = distinct event-log hash. In 2% of runs all 279 000 strings of length <= 3 over [a-zA-Z0-9 -] are passed to decode_dow (pure clause, enumerated directly, not simulation)',
     real=['FIX8::Schedule::test', 'Tickval clock read / adjust / in_range / get_tm', 'FIX8::decode_dow'],
     stub=['wall clock: simulated (system_clock::now wrapped at link time)', 'Configuration::create_schedule (XML) is not exercised: schedules are constructed directly with start < end as create_schedule enforces'],
     assumptions=['checks happen at least once a minute (premise of the statement)', 'start time of day < end time of day (Configuration::create_schedule rejects anything else)', 'the walk starts at an instant where the schedule is inactive, with prev=false', 'no clock jumps'] + COMMON_ASSUME[1:],
@@ -90,7 +90,7 @@ _p('C24', secs=(20, 300), runs=(100000, 10000000),
 _p('C29', secs=(20, 300), runs=(100000, 10000000),
     title='Log and store rotation keeps generations and stays in bounds',
     technique='deterministic simulation of directory histories: real FileLogger rotation on a private scratch directory (logger thread under the seeded scheduler, rename/access calls recorded by the link-time wrappers) and real FilePersister purge rotation on the simulated file layer, against a reference model of generations, under ASan/UBSan/_GLIBCXX_ASSERTIONS',
-    rule='one evaluation = one seeded directory state (0-7 pre-existing generations incl. ones around the 1024 cap, decoy files) + rotation count from {0,1,2,3,5,1023,1024,1025,1100} or random 0..1100 + append flag + 0-2 (thorough 0-4) explicit rotate()/rotate(force) calls, for the file logger (2/3) or the file persister purge (1/3); non-trivial = at least one rotation happened with at least 2 files in the model; distinct = distinct event-log hash',
+    rule='one evaluation = one seeded directory state (0-7 pre-existing generations incl. ones around the 1024 cap, for the file store also data-only and index-only generations, decoy files; 15% of the logger runs with the compress flag) + rotation count from {0,1,2,3,5,1023,1024,1025,1100} or random 0..1100 + append flag + 0-2 (thorough 0-4) explicit rotate()/rotate(force) calls, for the file logger (2/3) or the file persister purge (1/3); non-trivial = at least one rotation happened with at least 2 files in the model; distinct = distinct event-log hash',
     real=['FIX8::FileLogger ctor/rotate, logger thread', 'FIX8::FilePersister::initialise(purge=true) rotation', 'rename/access as issued by fix8 (recorded)'],
     stub=['persister files: in-memory simfs; logger files: real files in a private scratch directory (std::ofstream cannot be redirected), removed afterwards'],
     assumptions=['no fault or schedule dimension in the statement: the simulator contributes controlled directory state, recorded file-system calls, generated histories and the sanitised build', 'compressed logs (.gz names) not exercised'] + COMMON_ASSUME[1:],
@@ -100,7 +100,7 @@ _p('C29', secs=(20, 300), runs=(100000, 10000000),
 _p('C15', secs=(25, 420), runs=(200000, 20000000), mix=(4, 8),
     title='Socket reader frames the byte stream exactly',
     technique='deterministic simulation with fault injection: real FIXReader/Connection threads on a simulated socket (seeded chunking, short reads, 1-byte dribble, EAGAIN bursts, delays, EOF at a seeded byte offset, corrupted preambles) under the seeded scheduler; the strings handed to Session::process are compared with the stream that was sent',
-    rule='one evaluation = one seeded stream of 1-16 (thorough 1-40) framed messages with bodies of 12..8172 bytes containing look-alikes of the framing fields, one chunking profile (per message, whole, random cuts, cuts at the preamble/BodyLength/checksum boundaries, 1-byte dribble), transport faults, process model threaded/pipelined/coroutine; 40% of the runs corrupt the preamble of one message (10 kinds), 30% end the stream by EOF at a seeded offset; non-trivial = at least one complete message expected and at least 2 chunks; distinct = distinct event-log hash',
+    rule='one evaluation = one seeded stream of 1-16 (thorough 1-40) framed messages with bodies of 12..8172 bytes containing look-alikes of the framing fields (10% with a zero-padded BodyLength), one chunking profile (per message, whole, random cuts, cuts at the preamble/BodyLength/checksum boundaries, 1-byte dribble), transport faults, process model threaded/pipelined/coroutine; 40% of the runs corrupt the preamble of one message (11 kinds, incl. 14 near misses of the right BeginString), 30% end the stream by EOF at a seeded offset; non-trivial = at least one complete message expected and at least 2 chunks; distinct = distinct event-log hash',
     real=['FIX8::FIXReader::read/sockRead/execute/callback_processor', 'FIX8::Connection/ServerConnection start/stop', 'FastFlow queue + callback thread (pipelined model)', 'Session::start/stop, Timer thread'],
     stub=['Session::process overridden by a recorder (the observation point of the property)', 'socket: SimSock (Poco::Net::StreamSocketImpl subclass)'],
     assumptions=COMMON_ASSUME + ['pipelined connections are judged at quiescence and never torn down inside a run (FIXWriter::stop() pushes NULL into the FastFlow queue, which asserts); their workers are recycled', 'after a corrupted preamble only "nothing corrupted is handed on, reader stops" is demanded; in the pipelined model messages still queued at EOF may be dropped with the connection'],
@@ -114,7 +114,7 @@ _SESS_ASSUME = COMMON_ASSUME + ['threaded and coroutine process models; C16, C17
 _p('C16', secs=(30, 480), runs=(100000, 10000000), mix=(4, 8),
     title='Outbound sequence numbers are consecutive and persisted',
     technique='deterministic simulation: one real session (both roles, memory/file persister, threaded/coroutine) against a scripted peer on a simulated socket with seeded transport faults and scheduler; oracle over the parsed wire log and the persisted control record at every quiescent point',
-    rule='one evaluation = one seeded history of 2-18 (thorough 2-40) ops: application send by pointer/by reference, batch of 2-6, in-sequence peer application message, peer TestRequest/Heartbeat, undecodable peer message, peer ResendRequest inside the sent range, silence (timer heartbeats), restart with recovered numbers; optional configured start number; non-trivial = at least 2 send ops and 4 new messages on the wire; distinct = distinct event-log hash',
+    rule='one evaluation = one seeded history of 2-18 (thorough 2-40) ops: application send by pointer/by reference, batch of 2-6, in-sequence peer application message, peer TestRequest/Heartbeat, undecodable peer message, peer ResendRequest inside the sent range (20% carrying a number one too high), silence (timer heartbeats), restart with recovered numbers, application send timed to the scheduling point at which another thread of the session has just written to the socket; in a third of the plans operations overlap with the next one instead of waiting for quiescence; optional configured start number; with a file store every check is repeated through a second FilePersister instance opened on the same files; non-trivial = at least 2 send ops and 4 new messages on the wire; distinct = distinct event-log hash',
     real=_SESS_REAL, stub=_SESS_STUB, assumptions=_SESS_ASSUME,
     level_text='seeded exploration of session histories; every new (non-PossDup, non-GapFill) message on the wire must carry the next number (start = configured or recovered), no number reused by distinct new messages, control record == (next send, next receive) after every op, recovered number used after restart',
     level_note='trusted: harness codec and scripted peer; a Logout that ends the session may reuse the last number (documented no-increment send); after a GapFill the oracle follows the announced NewSeqNo (C18 judges that)')
@@ -129,7 +129,7 @@ _p('C17', secs=(30, 480), runs=(100000, 10000000), mix=(4, 8),
 _p('C18', secs=(30, 480), runs=(100000, 10000000), mix=(4, 8),
     title='Resend requests are answered with a complete, faithful replay',
     technique='deterministic simulation: real session + persister (memory, file on simfs, or none) against a scripted peer; histories mixing stored application messages with unstored administrative numbers, then ResendRequests with seeded ranges; the answer on the wire is compared with the harness record of what was sent',
-    rule='one evaluation = one seeded history of 1-12 (thorough 1-24) ops (application sends, batches, TestRequests answered by heartbeats, silences producing timer heartbeats) followed by 1-3 ResendRequests whose begin/end are drawn from {1, first stored, inside a gap, last stored, latest, random, 0 = to the latest} (5% invalid ranges), each followed by an application send; non-trivial = at least one request and 3 sent messages; distinct = distinct event-log hash',
+    rule='one evaluation = one seeded history of 1-12 (thorough 1-24) ops (application sends, batches, TestRequests answered by heartbeats, silences producing timer heartbeats) followed by 1-3 ResendRequests whose begin/end are drawn from {1, first stored, inside a gap, last stored, latest, random, 0 = to the latest} (5% invalid ranges; 12% preceded by a request beginning beyond the latest number sent, whose own answer is not judged; 20% with an application thread sending k scheduling points into the answer), each followed by an application send; non-trivial = at least one request and 3 sent messages; distinct = distinct event-log hash',
     real=_SESS_REAL + ['Session::handle_resend_request / retrans_callback', 'Persister::get(from,to,callback) of both persisters'], stub=_SESS_STUB, assumptions=_SESS_ASSUME,
     level_text='seeded exploration of stores x ranges; oracle: ascending order, every stored application message of the range replayed exactly once with PossDupFlag, original number, OrigSendingTime and body, every gap covered by a GapFill numbered with the first number of the gap, continuation from the last NewSeqNo announced, invalid ranges rejected',
     level_note='trusted: harness record of sent messages (parsed from the wire); a NewSeqNo larger than "the number after the gap" is tolerated only if it skips no stored message and does not exceed the session\'s next number; requests starting beyond the highest number sent are not generated')
@@ -137,7 +137,7 @@ _p('C18', secs=(30, 480), runs=(100000, 10000000), mix=(4, 8),
 _p('C19', secs=(30, 480), runs=(100000, 10000000), mix=(4, 8),
     title='Inbound messages reach the application only when in sequence',
     technique='deterministic simulation: a real session in every reachable state (before logon, continuous, resend pending, test request pending) receives one seeded inbound message at a time over the simulated socket; each is judged against the session\'s expected number read at the quiescent point just before, with MsgSeqNum taken from the real tag 34 by the independent codec',
-    rule='one evaluation = one seeded history of 1-10 (thorough 1-24) ops: inbound application messages with MsgSeqNum = expected-5..+5, PossDupFlag absent/N/Y, OrigSendingTime absent/earlier/equal/later, right/wrong CompIDs (enforcement on/off), undecodable variants (bad CheckSum, missing mandatory field), header values containing the text "34=" before or after tag 34 (both header orders), interleaved with peer admin messages, gap fills, silences (supervision states) and application sends; non-trivial = at least one inbound application message judged; distinct = distinct event-log hash',
+    rule='one evaluation = one seeded history of 1-10 (thorough 1-24) ops: inbound application messages with MsgSeqNum = expected-5..+5, PossDupFlag absent/N/Y, OrigSendingTime absent / 5 s earlier / equal / 5 s, 400 ms or 1 ms later / 1 ms earlier, right/wrong CompIDs (enforcement on/off), undecodable variants (bad CheckSum, missing mandatory field), header values containing the text "34=" before or after tag 34 (both header orders), interleaved with peer admin messages, gap fills, silences (supervision states) and application sends; non-trivial = at least one inbound application message judged; distinct = distinct event-log hash',
     real=_SESS_REAL + ['Session::process / enforce / sequence_check / compid_check'], stub=_SESS_STUB, assumptions=_SESS_ASSUME + ['decode strictness itself (unknown tags, malformed values) belongs to the codec properties, which are not claimed: only bad CheckSum and a missing mandatory field are used as undecodable inputs'],
     level_text='seeded exploration; oracle per message: delivered only if in sequence or lower with PossDupFlag=Y and OrigSendingTime not after SendingTime; higher => not delivered, ResendRequest from the expected number (unless one is pending), session not ended; lower without PossDup or wrong CompIDs under enforcement => Logout on the wire and session ended; undecodable => never delivered and Reject or Logout',
     level_note='trusted: harness codec; violation classes are kept separate so one finding does not mask another')
@@ -145,7 +145,7 @@ _p('C19', secs=(30, 480), runs=(100000, 10000000), mix=(4, 8),
 _p('C22', secs=(30, 480), runs=(100000, 10000000), mix=(4, 8),
     title='Heartbeat and test-request supervision follows the protocol',
     technique='deterministic simulation of time: real Timer<Session> thread, heartbeat_service, FIXReader/send_process time stamps on the simulated clock (discrete-event), seeded timelines of peer traffic, application sends and silences placed around the H, H+20% and tick boundaries; oracle over the timestamped wire log',
-    rule='one evaluation = one seeded timeline with HeartBtInt H in {1,2,3,5,6,10} (thorough up to 60): 1-12 (thorough 1-22) ops of wait (around H, H+20%+1, tick boundaries or arbitrary), peer Heartbeat with/without TestReqID, peer application message, peer TestRequest, application send, then a final wait; random start phase within the second; non-trivial = observed for longer than H with at least 2 messages on the wire; distinct = distinct event-log hash',
+    rule='one evaluation = one seeded timeline with HeartBtInt H in {1,2,3,5,6,10} (thorough up to 60): 1-12 (thorough 1-22) ops of wait (around H, H+20%+1, tick boundaries or arbitrary), peer Heartbeat with/without TestReqID, peer application message, peer TestRequest (also one arriving a number too high, the gap filled at once), peer application message a number too high whose gap is never filled, application send, then a final wait; random start phase within the second; non-trivial = observed for longer than H with at least 2 messages on the wire; distinct = distinct event-log hash',
     real=_SESS_REAL + ['Session::heartbeat_service / handle_test_request / handle_heartbeat', 'Tickval clock reads (simulated)'], stub=_SESS_STUB, assumptions=_SESS_ASSUME + ['no clock jumps or skew (the statement does not quantify over them)', 'bounds include whole-second truncation and one supervision tick: silent for at most H+1.1 s; TestRequest within (H+H/5)+2.1 s of receive silence; timeout Logout within the same bound after an unanswered TestRequest', 'the statement is read as upper bounds: fix8 sends the timeout Logout one tick after the TestRequest, which satisfies the implication and is recorded as an observation, not a violation'],
     level_text='seeded exploration of timelines; oracle: (a) never silent longer than H+tick, (b) receive silence > H+20% => TestRequest, (c) unanswered TestRequest => Logout and termination, (d) peer TestRequest answered by Heartbeat with the same TestReqID, (e) Heartbeat while a TestRequest is pending returns to continuous, (f) no timeout Logout without a preceding TestRequest or after a Heartbeat',
     level_note='trusted: simulated clock, wire timestamps taken at the completing sendBytes')
@@ -160,7 +160,7 @@ _p('C23', secs=(20, 300), runs=(100000, 10000000), mix=(4, 8),
 _p('C25', secs=(30, 480), runs=(100000, 10000000), mix=(4, 8),
     title='Concurrent senders get unique consecutive sequence numbers',
     technique='deterministic simulation: 2-8 application threads (real pthreads serialised by the seeded scheduler: random walk, PCT, run-to-block) call send/send_batch on one real session in the threaded or pipelined model while the reader thread answers peer TestRequests and the timer thread sends heartbeats; in a quarter of the runs a second session in the same process does the same; oracle over the parsed wire log and the persister',
-    rule='one evaluation = one seeded world: 2-6 (thorough 2-8) sender tasks with 1-5 (thorough 1-8) calls each (send by pointer, by reference, batch of 2-4), 0-6 concurrent peer TestRequests, HeartBtInt 1 or 30, memory/file persister, short writes/EAGAIN on the socket, optional second session; non-trivial = at least 2 tasks, 3 application messages and 6 task switches; distinct = distinct event-log hash',
+    rule='one evaluation = one seeded world: 2-6 (thorough 2-8) sender tasks with 1-5 (thorough 1-8) calls each (send by pointer, by reference, batch of 2-4), 0-6 concurrent peer TestRequests, HeartBtInt 1 or 30, memory/file persister (file store also read through a second instance), short writes/EAGAIN on the socket, optional second session; non-trivial = at least 2 tasks, 3 application messages and 6 task switches; distinct = distinct event-log hash',
     real=_SESS_REAL + ['FIXWriter::write/write_batch spin lock, FIXWriter::execute writer thread and FastFlow queue (pipelined model)', 'Session::send_process under _con_spl/_per_spl'], stub=_SESS_STUB,
     assumptions=COMMON_ASSUME + ['pipelined worlds are judged at quiescence and never torn down (FIXWriter::stop() pushes NULL into the FastFlow queue, which asserts); their workers are recycled', 'batch members need not stay adjacent on the wire (the statement does not say so; in the pipelined model a single send can slip between them - counted as an observation)', '"no data race": the serialising scheduler hides races from TSan; unsynchronised accesses are only caught when they change the observable outcome in an explored interleaving (see DESIGN.md section 9)'],
     level_text='seeded exploration of interleavings at intercepted-call granularity; oracle: socket bytes split into well-formed messages, new messages carry consecutive unique numbers, every application message sent appears exactly once, stored copy == transmitted bytes',
@@ -169,7 +169,7 @@ _p('C25', secs=(30, 480), runs=(100000, 10000000), mix=(4, 8),
 _p('C20', secs=(30, 480), runs=(100000, 10000000), mix=(4, 8),
     title='Sequence gaps are recovered with a conformant counterparty',
     technique='deterministic simulation with fault injection: one real session against an executable reference model of the FIX session layer (numbers/stores what it sends, replays with PossDup/OrigSendingTime and GapFills on ResendRequest, answers TestRequests, never violates the protocol) over the simulated socket; faults: disconnects during which the counterparty keeps sending (messages lost), reconnects with higher Logon numbers, session process restarts over the file store; liveness checked after a final fault-free stretch',
-    rule='one evaluation = one seeded history of 2-14 (thorough 2-30) ops: counterparty application/admin sends, session application sends, disconnect, reconnect (30% with a restart of the session process), silence; then a final fault-free stretch with one more counterparty message; non-trivial = at least 2 counterparty application messages, one disconnect and one reconnect; distinct = distinct event-log hash',
+    rule='one evaluation = one seeded history of 2-14 (thorough 2-30) ops: counterparty application/admin sends, session application sends, disconnect, link drop inside the counterparty's resend answer, new counterparty messages ahead of a resend answer or right after the logon exchange, reconnect (30% with a restart of the session process), silence; half of the histories end with a clean reconnect that is judged before any further traffic, then a final fault-free stretch with one more counterparty message; non-trivial = at least 2 counterparty application messages, one disconnect and one reconnect; distinct = distinct event-log hash',
     real=_SESS_REAL + ['Session::sequence_check / handle_logon / handle_sequence_reset / process numbering'], stub=['counterparty: reference model of the FIX session layer written for this check (harness/c20.cpp RefPeer), speaking through the independent codec', 'socket: SimSock', 'application: recording handle_application'],
     assumptions=_SESS_ASSUME + ['HeartBtInt 30 s and silences below 3 s: no supervision timeouts inside a run', 'attribution of a termination to a sequence reason is by elimination: the reference counterparty never logs out, never sends wrong CompIDs or times, so any termination while the link is up is one; the Logout text is recorded as corroboration'],
     level_text='seeded exploration of loss/reconnect histories; oracle: the session never ends while the link is up, every application message the counterparty numbered is delivered at least once by the end of the final fault-free stretch (bounded liveness), the session\'s expected number equals the counterparty\'s next number at the end',
@@ -178,7 +178,7 @@ _p('C20', secs=(30, 480), runs=(100000, 10000000), mix=(4, 8),
 _p('C21', secs=(40, 600), runs=(100000, 10000000), mix=(4, 8),
     title='Two fix8 sessions deliver every application message across failures',
     technique='deterministic simulation with fault injection: a real initiator and a real acceptor (Session + Connection + reader threads + Timer + FilePersister on the simulated disk each) joined by a simulated TCP link (latency, jitter, short reads/writes) under the seeded scheduler; faults: link drops with bytes in flight lost, restarts of either process between operations; reconnect glue as in ReliableClientSession / SessionInstance; bounded-liveness final phase',
-    rule='one evaluation = one seeded schedule of 2-16 (thorough 2-36) ops: application send on either side, link drop (right away with bytes in flight, or after delivery), restart of the initiator or acceptor process, silence; after every fault the pair reconnects; final fault-free phase of at most 5 simulated seconds; non-trivial = at least 2 application messages and one fault; distinct = distinct event-log hash',
+    rule='one evaluation = one seeded schedule of 2-16 (thorough 2-36) ops: application send on either side, link drop (right away with bytes in flight, or after delivery), restart of the initiator or acceptor process, refused connection attempts, sends right after start(), a connection dying inside its logon exchange, an application send k scheduling points into a resend answer, silence; after every fault the pair reconnects; final fault-free phase of at most 5 simulated seconds; non-trivial = at least 2 application messages and one fault; distinct = distinct event-log hash',
     real=['two complete fix8 sessions: Session, ClientConnection/ServerConnection, FIXReader threads, FIXWriter, Timer threads, FilePersister on simfs, message codec', 'logon / resend / gap-fill / sequence-reset handling on both sides (each side is the other\'s counterparty)'],
     stub=['TCP: SimSock pair + Link (FIFO per direction, latency+jitter, drop = EOF on both ends, bytes in flight lost)', 'the few lines of application glue of ReliableClientSession::operator() and SessionInstance are reproduced by the harness (new connection per attempt, new acceptor session per accepted connection, stores reopened)', 'application: recording handle_application calling enforce()'],
     assumptions=_SESS_ASSUME + ['HeartBtInt 30 s: no supervision timeouts inside a run', 'application sends are only issued while both sessions are established (a real application gets false from send() otherwise)', 'restarts happen between operations (as the statement says), drops at any moment'],
